@@ -217,6 +217,23 @@ def WellFormed (x : Inputs) : Prop :=
   (∀ a ∈ args3, (getArg x a).isNdarray = true ∧ (getArg x a).dtype ≠ .unconvertible ∧ (getArg x a).ndim = 3) ∧
   x.1.spatial = x.2.1.spatial ∧ x.1.spatial = x.2.2.spatial
 
+/-- the three classes of outcome the property distinguishes -/
+inductive OutcomeClass | typeError | valueError | accepted
+  deriving DecidableEq, Repr
+
+def classOf (o : Outcome) : OutcomeClass :=
+  match o.result with
+  | .error (.typeError _ _) => .typeError
+  | .error (.valueError _ _) => .valueError
+  | .ok _ => .accepted
+
+/-- the contract as a decision on the description of the three inputs -/
+def specClass (x : Inputs) : OutcomeClass :=
+  if (firstBad (fun d => !d.isNdarray) x).isSome then .typeError
+  else if (firstBad (fun d => d.dtype.isUnconvertible) x).isSome || (firstBad (fun d => d.ndim != 3) x).isSome
+      || !(x.1.spatial == x.2.1.spatial && x.1.spatial == x.2.2.spatial) then .valueError
+  else .accepted
+
 /-- replace the length of the time axis -/
 def withTime (d : InputDesc) (t : Nat) : InputDesc := { d with shape := t :: d.shape.tail }
 
@@ -321,6 +338,34 @@ def timeChecked (d : Deb) (c : TimeCfg) : Bool × Bool × Bool :=
     if c.rwMode then (true, true, true)
     else if hasYearWindows d && c.yearMode then (false, false, true)
     else (false, false, false)
+
+/-- per debiaser: the class whose `apply_location` it runs (six inherit `RunningWindowDebiaser.apply_location`) -/
+def applyLocationOwner : List (String × String) := [
+  ("LinearScaling", "RunningWindowDebiaser"), ("DeltaChange", "DeltaChange"), ("QuantileMapping", "RunningWindowDebiaser"),
+  ("ScaledDistributionMapping", "RunningWindowDebiaser"), ("CDFt", "RunningWindowDebiaser"), ("ECDFM", "RunningWindowDebiaser"),
+  ("QuantileDeltaMapping", "RunningWindowDebiaser"), ("ISIMIP", "ISIMIP")]
+
+/-- does a time-check site lie on the path debiaser `d` runs?  An `apply_location` site: iff it is in the class whose
+    `apply_location` the debiaser runs; an `apply_on_window` site: iff it is the debiaser's own class -/
+def siteOnPath (owners : List (String × String)) (s : TimeSite) (d : Deb) : Bool :=
+  if s.method == "apply_location" then owners.any (fun p => p.1 == d.className && p.2 == s.cls)
+  else s.cls == d.className
+
+def siteGuardHolds (g : String) (c : TimeCfg) : Bool :=
+  if g == "" then true
+  else if g == "running_window_mode" then c.rwMode
+  else if g == "running_window_mode_over_years_of_cm_future" then c.yearMode
+  else false
+
+def siteChecks (s : TimeSite) : Bool × Bool × Bool :=
+  if s.check == "all3" then (true, true, true) else if s.check == "future" then (false, false, true) else (false, false, false)
+
+/-- which time arrays have their length checked, *computed from the table of check sites* -/
+def checkedFromSites (sites : List TimeSite) (owners : List (String × String)) (d : Deb) (c : TimeCfg) : Bool × Bool × Bool :=
+  sites.foldl (fun acc s =>
+    if siteOnPath owners s d && siteGuardHolds s.guard c then
+      (acc.1 || (siteChecks s).1, acc.2.1 || (siteChecks s).2.1, acc.2.2 || (siteChecks s).2.2)
+    else acc) (false, false, false)
 
 /-- outcome of the time checks of one location: sizes of the three series and of the three time arrays
     (a time array that is not given is inferred with the right length, i.e. `t = n`) -/
